@@ -71,6 +71,22 @@ class Namespace(typing.Generic[T]):
         """
         raise NotImplementedError()  # pragma: no cover
 
+    def get_load_global(self, name: str) -> expr:
+        """
+        Use this to load a global name: a plain name, unless a local
+        variable of an enclosing function hides it in the converted code
+        """
+        outer: Namespace = self
+        while not isinstance(outer, NamespaceGlobal):
+            if isinstance(outer, NamespaceFunction):
+                try:
+                    if outer.symt.lookup(name).is_local():
+                        return _globals_item(name)
+                except KeyError:
+                    pass
+            outer = outer.outer_nsp
+        return Name(id=name, ctx=Load())
+
 
 def _globals_item(name: str) -> expr:
     return Subscript(
@@ -232,8 +248,15 @@ class NamespaceFunction(Namespace[symtable.Function]):
                 slice=Constant(value=name),
                 ctx=Load(),
             )
-        else:  # globals or locals except free
+        try:
+            symbol_is_local = self.symt.lookup(name).is_local()
+        except KeyError:
+            # a name that only lambdas/comprehensions of the function know
+            symbol_is_local = False
+        if symbol_is_local:
             return Name(id=name, ctx=Load())
+        else:
+            return self.get_load_global(name)
 
     def get_load_assigned(self, name: str) -> expr:
         if self.symt.lookup(name).is_declared_global():
@@ -346,7 +369,7 @@ class NamespaceClass(Namespace[symtable.Class]):
             symbol = self.symt.lookup(name)
         except KeyError:
             # a name that only lambdas/comprehensions of the class body know
-            return Name(id=name, ctx=Load())
+            return self.get_load_global(name)
         if name in self.outer_nonlocal_map:
             outer = self.outer_nonlocal_map[name]
             return Subscript(
@@ -355,7 +378,7 @@ class NamespaceClass(Namespace[symtable.Class]):
                 ctx=Load(),
             )
         elif symbol.is_global():
-            return Name(id=name, ctx=Load())
+            return self.get_load_global(name)
         else:
             # a class member
             return Subscript(
@@ -398,7 +421,7 @@ class NamespaceClass(Namespace[symtable.Class]):
                             slice=Constant(value=name),
                             ctx=Load(),
                         )
-                    break
+                    return Name(id=name, ctx=Load())
                 elif name in outer.outer_nonlocal_map:
                     origin = outer.outer_nonlocal_map[name]
                     return Subscript(
@@ -409,7 +432,7 @@ class NamespaceClass(Namespace[symtable.Class]):
                 else:  # global in the enclosing function
                     break
             outer = outer.outer_nsp
-        return Name(id=name, ctx=Load())
+        return self.get_load_global(name)
 
 
 if sys.version_info < (3, 12):
